@@ -45,6 +45,7 @@ type c13Case struct {
 	WriterStep int   // concurrent writer acts during this step's first WriteConfig (-1 = never)
 	WriterB    bool  // which log the concurrent writer follows
 	WriterSize int64 // head size it writes
+	Extra      int   `json:",omitempty"` // index into sw.ExtraLines: further lines in every tree head
 }
 
 func genCase(t *rapid.T) c13Case {
@@ -154,6 +155,9 @@ func genCase(t *rapid.T) c13Case {
 				ns = len(c.Steps)
 			}
 		}
+	}
+	if gen.Chance(t, 25, "extralines") {
+		c.Extra = 1 + gen.Uniform(t, len(sw.ExtraLines)-1, "extra")
 	}
 	if rapid.IntRange(0, 3).Draw(t, "writer") == 0 {
 		c.WriterStep = rapid.IntRange(0, ns-1).Draw(t, "writerstep")
@@ -289,7 +293,7 @@ func check(c c13Case) pbt.Result {
 		r.Skip = true
 		return r
 	}
-	w := sw.New(sw.Config{H: c.H, NA: c.NA, Fork: c.P, NB: c.NB, Seed: int64(c.Seed)})
+	w := sw.New(sw.Config{H: c.H, NA: c.NA, Fork: c.P, NB: c.NB, Seed: int64(c.Seed), Extra: c.Extra})
 	// resources for fault binding come from a run without substitutions and without the concurrent writer
 	base := c
 	base.Faults, base.WriterStep = nil, -1
@@ -591,7 +595,7 @@ func check(c c13Case) pbt.Result {
 
 var subs = []pbt.Sub{
 	pbt.New("forks", 2500, 8000, genCase, check),
-	pbt.New("concurrent-forks", 300, 2500, genConc, checkConc),
+	pbt.New("concurrent-forks", 400, 2500, genConc, checkConc),
 }
 
 func TestGen(t *testing.T)    { pbt.RunAll(t, subs) }
